@@ -76,4 +76,18 @@ CHECKS = {
         "note": "Class abstraction (atoms are single-character tokens); edits are never placed inside multi-line string tokens; "
                 "AST-level positions are sampled per file (seeded).",
     },
+    "C06": {
+        "level": "model_checking",
+        "technique": "TLA+ specs ConstEval (cycle-detection state machine, TLC exhaustive over all reference graphs) and "
+                     "GenConst/Core (reference semantics of const-evaluable expressions); graphs and expressions replayed into the "
+                     "real checker (paths, types, values, error texts) and compiled end to end (const vs function)",
+        "text": "ConstEval.tla transcribes eval_const_by_name's cache/state/stack machine; TLC proves termination, "
+                "evaluate-once and cycle-reported-iff-cyclic on every graph and every graph is replayed into the real checker "
+                "(the set of reported cycle paths must equal the machine's). GenConst enumerates every const-evaluable expression "
+                "up to the depth bound; Core.tla gives its value/type/error; the real checker's recorded type, computed value and "
+                "diagnostic text are compared for all of them and a seeded sample is compiled and run with the expression both as "
+                "a const and in a function body.",
+        "note": "Numeric const values are only observable end to end (the front end records types only); compile-time division "
+                "by zero is C02 material; programs the back end cannot build are counted and left to C02.",
+    },
 }
